@@ -109,6 +109,9 @@ func (i *interpreter) loadAddr(T types.Type, addr value) value {
 		if sa, isSA := addr.(*symAddr); isSA {
 			return i.loadSymAddr(sa)
 		}
+		if wp, isWP := addr.(*wordPtr); isWP {
+			return i.loadWord(wp)
+		}
 		if _, isP := addr.(poison); isP {
 			if i.initMode {
 				return addr
@@ -131,6 +134,10 @@ func (i *interpreter) storeAddr(T types.Type, addr value, v value) {
 	if !ok {
 		if sa, isSA := addr.(*symAddr); isSA {
 			i.storeSymAddr(sa, v)
+			return
+		}
+		if wp, isWP := addr.(*wordPtr); isWP {
+			i.storeWord(wp, v)
 			return
 		}
 		if _, isP := addr.(poison); isP && i.initMode {
